@@ -905,8 +905,9 @@ def run(tier, seed):
         for chunk in range(0, len(meters), 12):
             comp_case(cdesc([tdesc([(key, m, [(None, (Fraction(128), 0, (1, 1)), 128)]) for m in meters[chunk:chunk + 12]])]),
                       ly=False)
-    # every name x octave: alone, as first / middle / last note of chords
-    for name in NAMES:
+    # every name x octave: alone, as first / middle / last note of chords.  MusicXML has an alteration for EVERY legal
+    # name, so the mixed spellings (no LilyPond name, hence not in NAMES) are included here: alter = sharps - flats
+    for name in NAMES + ["C#b", "Eb#", "F#b", "Gb#", "A##b", "Bb#b", "D#b#"]:
         bars = []
         for o in OCTAVES:
             hi, lo = ("G", 8) if o < 5 else ("D", 0), ("E", 8) if o < 5 else ("F", 0)
